@@ -263,3 +263,20 @@ Theorem clipped_meta_tile_equals_tile_fetched_alone :
     0 <= j < tw (mg_grid m) -> 0 <= k < th (mg_grid m) ->
     model_clip_colour m q HowMeta inside (cx, cy, z) j k = model_clip_colour m q HowSingle inside (cx, cy, z) j k.
 Proof. exact meta_clip_colour_equals_single. Qed.
+
+(* Encoding of the stored tile (img_to_buf): with globals.image.paletted false and image options that name no number
+   of colours no tile is quantised, whatever format and creator - the stored PNG is the true colour image.  (The
+   model function has no creator argument: the correspondence checks that what pool workers store is what it says
+   for the base configuration of the request.) *)
+Theorem true_colour_base_configuration_stores_true_colour :
+  forall png mixed has_alpha, stored_with_palette None false png mixed has_alpha = false.
+Proof. exact true_colour_configuration_not_quantised. Qed.
+
+(* The base configuration decides the stored image exactly for PNG caches whose image options name no number of
+   colours (and, for `mixed`, images with transparency): there a creator encoding under another base configuration
+   than the request's would store a different image; everywhere else the image options decide alone. *)
+Theorem base_configuration_decides_encoding_iff :
+  forall colors png mixed has_alpha,
+    stored_with_palette colors true png mixed has_alpha <> stored_with_palette colors false png mixed has_alpha <->
+    colors = None /\ png = true /\ (mixed = false \/ has_alpha = true).
+Proof. exact base_configuration_matters_iff. Qed.
